@@ -3,8 +3,15 @@ import Proofs.C20
 #print axioms C20.single_fault_atomic
 #print axioms C20.fault_is_reported
 #print axioms C20.single_fault_atomic_full
-#print axioms C20.success_complete_partial
+#print axioms C20.success_complete
+#print axioms C20.stored_file_format
 #print axioms C20.success_keeps_earlier
 #print axioms C20.ids_format_monotone
+#print axioms C20.renderId_shape
 #print axioms C20.id_has_request_day
+#print axioms C20.single_fault_atomic_ops
+#print axioms C20.success_complete_ops
+#print axioms C20.replace_upload_effect
+#print axioms C20.id_never_reused
+#print axioms C20.ids_monotone_after_reindex
 #print axioms C20.ids_unique_all_interleavings
